@@ -72,6 +72,8 @@ def panic_sites(F, b):
         elif last in ("index", "index_mut") and ("Index" in q or str(t["fn"].get("trait", "")).startswith("std::ops::Index") or str(t["fn"].get("d", "")).startswith("std::ops::Index")):
             ity = t["fn"].get("targs", [])
             out.append((bi, "index", {"base": t["args"][0], "index": t["args"][1], "q": q, "targs": ity}))
+        elif last in ("step_by", "chunks", "chunks_exact", "windows", "rchunks", "chunks_mut") and len(t["args"]) == 2:
+            out.append((bi, "nonzero", {"arg": t["args"][1], "fn": last}))
         elif last in POS_MUTATORS and ("vec::Vec" in q or "string::String" in q or "slice::" in q or "str::" in q):
             if last == "drain" and False:
                 continue
@@ -308,6 +310,12 @@ def _discharge_in(F, b, A, z, bi, cls, d):
         if dv and (_le(z, bi, ("0", 0), dv, -1) or _le(z, bi, dv, ("0", 0), -1)):
             return "zone: divisor != 0"
         return None
+    if cls == "nonzero":
+        c = const_int(d["arg"])
+        if c is not None:
+            return "constant non-zero argument" if c > 0 else None
+        v = A.lin(z, d["arg"], "usize")
+        return "zone: argument >= 1" if _le(z, bi, ("0", 0), v, -1) else None
     if cls == "unwrap":
         g = _guarded_unwrap(b, bi, d)
         if g:
@@ -594,6 +602,8 @@ def _describe(b, cls, d):
             return d["mac"]
         if cls == "divzero":
             return "/ %s" % _atom(b, d["divisor"])
+        if cls == "nonzero":
+            return "%s(%s)" % (d["fn"], _atom(b, d["arg"]))
     except Exception:   # descriptive only
         return "?"
     return cls
